@@ -46,3 +46,11 @@ func (v *VerifC32Loop) Run() (string, error) { return v.lp.Run() }
 func (v *VerifC32Loop) Pending() (inputs, tokens, returns int) {
 	return len(v.lp.inputCh), len(v.lp.redrawCh), len(v.lp.returnCh)
 }
+
+// VerifC32LockRedraw locks the loop's redrawMutex (the mutex taken by Redraw
+// and extractRedrawFull), so that a test can stage the loop and callers of
+// Redraw at the mutex.
+func (v *VerifC32Loop) VerifC32LockRedraw() { v.lp.redrawMutex.Lock() }
+
+// VerifC32UnlockRedraw releases the lock taken by VerifC32LockRedraw.
+func (v *VerifC32Loop) VerifC32UnlockRedraw() { v.lp.redrawMutex.Unlock() }
